@@ -11,7 +11,7 @@ package main
 //   O3  chunk independence: every delivery schedule (chunkings; EOF alone or together with the last chunk) prints the same
 //   O4  round trip on the real code: print in CSV output mode, read back in CSV input mode, same separator (and the $0
 //       rebuild / re-parse / split() variant)
-//   O5  getline var must not disturb the current record's fields (F13, recorded)
+//   O5  getline var must not disturb the current record's fields (F13, repaired: regression cases)
 // Correspondence: the Lean specification reader (csvRecords), the chunked scanner model (csvScan) and the writer model
 // (csvWrite / joinFields / reparse) against the real code on the same inputs.
 
@@ -355,24 +355,6 @@ func c08CheckRef(g c08Cfg, data []byte, rows []c08RefRow, o c08Out) string {
 	return ""
 }
 
-// ---- finding classes ---------------------------------------------------------------------------------------------------
-
-// G08-1: header mode, and the Read that completes the header row's line also returns io.EOF: csvSplitter.scan answers the
-// header row with (advance, nil) and bufio.Scanner stops at EOF on a nil token, so every data row is lost.
-func c08IsG081(g c08Cfg, data []byte, chunks [][]byte, eofWith bool, rows []c08RefRow) bool {
-	if !g.Header || !eofWith || len(rows) < 2 {
-		return false
-	}
-	lastStart := len(data)
-	for i := len(chunks) - 1; i >= 0; i-- {
-		if len(chunks[i]) > 0 {
-			lastStart -= len(chunks[i])
-			break
-		}
-	}
-	return rows[0].End > lastStart
-}
-
 // ---- generators --------------------------------------------------------------------------------------------------------
 
 func c08Alphabet(g c08Cfg) [][]byte {
@@ -542,7 +524,7 @@ func c08ReadPart(c *vh.Ctx) {
 		{c08Cfg{',', 0, false}, "\xef\xbb\xbfa,b\nc,d\n"}, // F12 (fixed): BOM, $0 of first record
 		{c08Cfg{',', 0, false}, "\xef\xbb\xbfa,b"},        // F12 (fixed): single record
 		{c08Cfg{',', 0, true}, "\xef\xbb\xbfh\na\n"},      // F12 + header
-		{c08Cfg{',', 0, true}, "h,i\na,b\n"},              // G08-1 with EOF-with-data schedules
+		{c08Cfg{',', 0, true}, "h,i\na,b\n"},              // G08-1 (repaired): EOF-with-data schedules must give the data rows
 		{c08Cfg{',', 0, false}, "abc\r"},                  // trailing CR before EOF: field drops it, $0 keeps it
 		{c08Cfg{',', 0, false}, "\"a\n\r"},
 		{c08Cfg{',', 0, false}, "\"a\r\nb\",c\rd\n"}, // CR deletion in $0
@@ -660,11 +642,7 @@ func c08ReadPart(c *vh.Ctx) {
 			continue
 		}
 		if got := c08Canon(o.o, true); got != r.canon {
-			finding := ""
-			if r.err == nil && c08IsG081(j.g, j.input, j.chunks, j.eofWith, r.rows) && len(o.o.Recs) == 0 {
-				finding = "G08-1"
-			}
-			c.Fail(vh.Failure{Kind: "oracle", What: "O3: records depend on how the input is delivered", Finding: finding, Case: cs, Got: got, Want: r.canon})
+			c.Fail(vh.Failure{Kind: "oracle", What: "O3: records depend on how the input is delivered", Case: cs, Got: got, Want: r.canon})
 		}
 	}
 
@@ -780,38 +758,23 @@ func c08RecsCanon(recs [][][]byte) string {
 	return strings.Join(s, " ")
 }
 
-// c08RoundTripClass: the recorded classes in which a CR-free field list is not read back.
+// c08RoundTripClass: the recorded class in which a CR-free field list is not read back.
 //
-//	G08-2: a record that is exactly one empty field is written as an empty line, which the reader skips
-//	G08-3: the first field of the first record of the stream starts with the BOM bytes (written unquoted), the reader drops them
+//	G08-3: the first field of the first record of the stream starts with the BOM bytes and is written unquoted; the reader
+//	       drops them as a byte-order mark
 //
-// The predicate accepts a failing case only if applying exactly these two effects to the written records yields what was read.
+// The predicate accepts a failing case only if removing exactly those three bytes from that field yields what was read.
+// (G08-2, the single empty field written as an empty line, is repaired: its witnesses are regression cases now.)
 func c08RoundTripClass(recs [][][]byte, written []byte, got [][][]byte) string {
-	adjust := func(bom, empties bool) ([][][]byte, bool) {
-		var adj [][][]byte
-		applied := false
-		for k, r := range recs {
-			if bom && k == 0 && bytes.HasPrefix(written, c08BOM) && bytes.HasPrefix(r[0], c08BOM) {
-				// written unquoted at the very start of the stream
-				applied = true
-				r = append([][]byte{bytes.TrimPrefix(r[0], c08BOM)}, r[1:]...)
-			}
-			if empties && len(r) == 1 && len(r[0]) == 0 {
-				applied = true
-				continue
-			}
-			adj = append(adj, r)
-		}
-		return adj, applied
+	if len(recs) == 0 || !bytes.HasPrefix(written, c08BOM) || !bytes.HasPrefix(recs[0][0], c08BOM) {
+		return ""
 	}
-	want := c08RecsCanon(got)
-	for _, v := range []struct {
-		bom, empties bool
-		id           string
-	}{{true, false, "G08-3"}, {false, true, "G08-2"}, {true, true, "G08-2"}} {
-		if adj, applied := adjust(v.bom, v.empties); applied && c08RecsCanon(adj) == want {
-			return v.id
-		}
+	adj := append([][][]byte{append([][]byte{bytes.TrimPrefix(recs[0][0], c08BOM)}, recs[0][1:]...)}, recs[1:]...)
+	if len(adj[0]) == 1 && len(adj[0][0]) == 0 {
+		adj = adj[1:] // the field was only the BOM: what is left of the line is empty, and an empty line is no record
+	}
+	if c08RecsCanon(adj) == c08RecsCanon(got) {
+		return "G08-3"
 	}
 	return ""
 }
@@ -827,8 +790,8 @@ func c08RoundTripPart(c *vh.Ctx) {
 	var cases []rt
 	// corpus
 	cases = append(cases,
-		rt{sep: ',', recs: [][][]byte{{[]byte("")}}},                               // G08-2
-		rt{sep: ',', recs: [][][]byte{{[]byte("a")}, {[]byte("")}, {[]byte("b")}}}, // G08-2 in the middle
+		rt{sep: ',', recs: [][][]byte{{[]byte("")}}},                               // G08-2 (repaired): regression
+		rt{sep: ',', recs: [][][]byte{{[]byte("a")}, {[]byte("")}, {[]byte("b")}}}, // G08-2 (repaired)
 		rt{sep: ',', recs: [][][]byte{{[]byte("\xef\xbb\xbfa"), []byte("b")}}},     // G08-3
 		rt{sep: ',', recs: [][][]byte{{[]byte("x")}, {[]byte("\xef\xbb\xbfa")}}},   // BOM not first: fine
 		rt{sep: ',', recs: [][][]byte{{[]byte(""), []byte("")}}},                   // two empty fields: fine
@@ -1091,7 +1054,7 @@ func c08Unhex(s string) ([]byte, bool) {
 // ---- O5: getline var (F13) -------------------------------------------------------------------------------------------
 
 // In CSV/TSV input mode `getline var` (from the main input) must leave $0 and the fields of the current record alone.
-// Every csvSplitter writes p.fields, so the fields become those of the line read into var: recorded finding F13.
+// (F13, repaired: the main-input csvSplitter used to write p.fields directly; these are regression cases now.)
 func c08GetlinePart(c *vh.Ctx) {
 	prog := `NR==1 { printf "%d:%s", length($1), $1; getline x; printf " %d:%s %d:%s %d:%s\n", length($0), $0, length($1), $1, length(x), x }`
 	inputs := []string{"a,b\nc,d\n", "\"p,q\",r\nss,t\n", "k\n\"l\nm\",n\n"}
@@ -1125,12 +1088,7 @@ func c08GetlinePart(c *vh.Ctx) {
 		}
 		// it[0] = $1 before, it[1] = $0 after, it[2] = $1 after, it[3] = x
 		if !bytes.Equal(it[0], it[2]) || !bytes.Equal(it[0], rows[0].Fields[0]) {
-			finding := ""
-			// the class: CSV mode, getline with a variable target; the symptom is exactly "fields of the line read into var"
-			if bytes.Equal(it[2], rows[1].Fields[0]) && bytes.Equal(it[0], rows[0].Fields[0]) {
-				finding = "F13"
-			}
-			c.Fail(vh.Failure{Kind: "oracle", What: "O5: getline var changed the fields of the current record", Finding: finding, Case: kase,
+			c.Fail(vh.Failure{Kind: "oracle", What: "O5: getline var changed the fields of the current record", Case: kase,
 				Got: vh.Hx(it[2]), Want: vh.Hx(it[0])})
 		}
 	}
